@@ -172,6 +172,19 @@ func (e *Engine) intrinsic(st *State, fn *ssa.Function, name string, args []Valu
 			return &StrV{id: id}, true, st
 		}
 	}
+	if short == "isNullOrNullPointer" && fn.Pkg != nil && strings.HasSuffix(fn.Pkg.Pkg.Path(), "/motion") {
+		// reflect-based helper: nil interface, or nil pointer inside the interface
+		iv := args[0].(*IfaceV)
+		var ds []*Term
+		for _, a := range iv.alts {
+			if a.typ == nil {
+				ds = append(ds, a.g)
+			} else if p, ok := a.v.(*PtrV); ok {
+				ds = append(ds, And(a.g, p.IsNil()))
+			}
+		}
+		return Or(ds...), true, st
+	}
 	switch name {
 	case "(*sync.Mutex).Lock", "(*sync.Mutex).Unlock", "(*sync.RWMutex).Lock", "(*sync.RWMutex).Unlock",
 		"(*sync.RWMutex).RLock", "(*sync.RWMutex).RUnlock":
